@@ -44,6 +44,49 @@ def first_diff(a, b, path=""):
     return None if a == b else (path, "value")
 
 
+def share_equal_instances(obj, attrs):
+    """Make the object graph a DAG: every attrs instance that equals (same class, ==) an instance met
+    earlier is replaced by that earlier instance - applications build messages from shared Position /
+    Range objects all the time.  -> number of replacements."""
+    seen = {}
+    n = [0]
+
+    def canon(v):
+        if attrs.has(type(v)):
+            walk(v)
+            bucket = seen.setdefault(type(v), [])
+            for o in bucket:
+                try:
+                    if o is not v and o == v:
+                        n[0] += 1
+                        return o
+                except Exception:
+                    pass
+            bucket.append(v)
+            return v
+        if isinstance(v, list):
+            for x in range(len(v)):
+                v[x] = canon(v[x])
+            return v
+        if isinstance(v, tuple):
+            return tuple(canon(x) for x in v)
+        if isinstance(v, dict):
+            for k in list(v):
+                v[k] = canon(v[k])
+            return v
+        return v
+
+    def walk(o):
+        for f in attrs.fields(type(o)):
+            cur = getattr(o, f.name)
+            new = canon(cur)
+            if new is not cur:
+                object.__setattr__(o, f.name, new)
+
+    walk(obj)
+    return n[0]
+
+
 def tail(path):
     return ".".join(path.replace("[]", "").split(".")[-2:])
 
@@ -103,6 +146,21 @@ def shard(i, n, args):
                 continue
             if len(res["samples"]) < 2 and res["cases"] % 89 == 1:
                 res["samples"].append({"root": root.label, "case": lab, "constructed": repr(obj)[:300], "wire": u1})
+            # the same message built from SHARED sub-objects (one instance at several positions)
+            try:
+                shared = share_equal_instances(obj, py.attrs)
+            except Exception:
+                shared = 0
+            if shared:
+                res["shared_instance_cases"] = res.get("shared_instance_cases", 0) + 1
+                try:
+                    u1s = json.loads(json.dumps(py.conv.unstructure(obj, root.cls)))
+                except Exception as e:
+                    fail("unstructure-raises when one instance sits at several positions|%s" % exc_key(e)[:100], dict(wit, error=repr(e), shared=shared))
+                    continue
+                if first_diff(u1, u1s):
+                    fail("output differs when one instance sits at several positions", dict(wit, output=u1s, expected=u1, shared=shared))
+                    continue
             # second half: parse the output and serialise again
             try:
                 o2 = py.conv.structure(u1, root.cls)
@@ -137,6 +195,7 @@ def main(tier):
         rep.inconc("no case executed")
     cov = {
         "evaluations": cases,
+        "cases_rebuilt_with_shared_instances": sum(r.get("shared_instance_cases", 0) for r in results),
         "distinct_nontrivial": sum(r["nontrivial"] for r in results),
         "distinct_signatures": sum(r["sigs"] for r in results),
         "rule": "objects built bottom-up by calling generated constructors with snake_case kwargs derived from the metamodel names, class of the derivation's alternative at unions; workloads: directed + random + forced union alternatives + each optional attribute toggled alone; distinct by (root, derivation signature); non-trivial = depth >= 2 or non-first alternative",
